@@ -201,9 +201,9 @@ func buildStore(ms []sMetric) (*metrics.Store, []*metrics.Metric, error) {
 	return s, real, nil
 }
 
-var genNames = []string{"m", "m-x", "total_x", "9bad", "", "m\xc3\xa9", "m:colon", "a.b", "lat-ms", "z"}
+var genNames = []string{"m", "m-x", "total_x", "9bad", "", "m\xc3\xa9", "m:colon", "a.b", "lat-ms", "z", "pct%d"}
 var genKeys = []string{"k", "host", "a-b", "9k", "", "prog", "__r", "le2", "code"}
-var genVals = []string{"a", "", "x y", "\xff", "\xc3\xa9", "\"q\"", "a\nb", "v1", "v2", "b\\c"}
+var genVals = []string{"a", "", "x y", "\xff", "\xc3\xa9", "\"q\"", "a\nb", "v1", "v2", "b\\c", "50%", "a%20b", "%s%v", "{x}", "$1"}
 var genInts = []int64{0, 1, -1, 42, 9007199254740993, math.MaxInt64, math.MinInt64, -9007199254740993}
 var genFloats = []float64{0.5, math.Copysign(0, -1), 1e308, math.NaN(), math.Inf(1), math.Inf(-1), -2.25, 3}
 
@@ -222,7 +222,7 @@ func genStore(r *rng, o storeGenOpts) []sMetric {
 		var name string
 		for tries := 0; tries < 20; tries++ {
 			name = genNames[r.intn(len(genNames))]
-			if o.cleanNames && (name == "" || name == "9bad" || name == "m\xc3\xa9" || name == "a.b") {
+			if o.cleanNames && (name == "" || name == "9bad" || name == "m\xc3\xa9" || name == "a.b" || name == "pct%d") {
 				continue
 			}
 			if !used[strings.ReplaceAll(name, "-", "_")] {
@@ -294,7 +294,7 @@ func genStore(r *rng, o storeGenOpts) []sMetric {
 			for q := range labels {
 				labels[q] = genVals[r.intn(len(genVals))]
 				if o.noSeparator || o.cleanNames {
-					labels[q] = []string{"a", "v1", "v2", "b\\c", "\xc3\xa9", "q"}[r.intn(6)]
+					labels[q] = []string{"a", "v1", "v2", "b\\c", "\xc3\xa9", "q", "50%", "%v%s", "a%20b"}[r.intn(9)]
 				}
 			}
 			if o.utf8Only {
